@@ -7,7 +7,7 @@
    PARTIAL: the constructors of stochastic objects and molecules are not modelled; their rejection rules and
    termination are checked on the malformed stream (breaking operators, byte-level mutations, 2 s limit). *)
 From Coq Require Import List ZArith QArith Ascii String Bool.
-From GBS Require Import Model.PyStr Model.Num Model.Bond Model.Token Model.SysSplit Model.DistFam Src.SrcDist Proofs.TotalP Proofs.DistP.
+From GBS Require Import Model.PyStr Model.Num Model.Bond Model.Token Model.SysSplit Model.DistFam Src.SrcDist Proofs.TotalP Proofs.DistP Model.Stoch Proofs.StochP.
 Import ListNotations.
 Open Scope Z_scope.
 
@@ -56,6 +56,23 @@ Proof. exact dispatch_unknown. Qed.
 Print Assumptions C15_unknown_distribution_rejected.
 
 (* non-vacuity: strings the parsers do reject / split *)
+(* stochastic objects (Model/Stoch.v): the parser is total; in an accepted object every transition list, on a token descriptor or on a
+   terminal, has exactly one entry per descriptor of the object -- any other length is rejected; a text that does not start with '{' is
+   rejected *)
+Theorem C15_object_parse_total : forall (valid_atom : str -> bool) text, is_fuel (parse_stoch valid_atom text) = false.
+Proof. exact parse_stoch_total. Qed.
+Print Assumptions C15_object_parse_total.
+
+Theorem C15_wrong_length_list_rejected : forall (valid_atom : str -> bool) text s, parse_stoch valid_atom text = OK s ->
+  forall d l, In d (ps_bds s ++ [ps_left s; ps_right s]) -> d_trans d = Some l -> List.length l = List.length (ps_bds s).
+Proof. intros v text s H. destruct (parse_stoch_spec v text s H) as (_ & _ & _ & L & _). exact L. Qed.
+Print Assumptions C15_wrong_length_list_rejected.
+
+Theorem C15_object_needs_opening_brace : forall (valid_atom : str -> bool) text,
+  (forall c rest, strip text = c :: rest -> c <> ch "{") -> forall s, parse_stoch valid_atom text <> OK s.
+Proof. exact parse_stoch_needs_braces. Qed.
+Print Assumptions C15_object_needs_opening_brace.
+
 Example C15_example :
   (exists m, parse_token (fun _ => true) (lit "C[$]C") 0 = Err ERuntime m) /\
   (exists m, parse_token (fun _ => true) (lit "CC(C[$]") 0 = Err ERuntime m) /\
